@@ -5307,7 +5307,7 @@ tokenLoop:
 // throwExpression = "throw" ["unchecked"] [expressionWithoutModifier]
 func (p *Parser) throwExpression() *ast.ThrowExpressionNode {
 	throwTok := p.advance()
-	if p.lookahead.IsStatementSeparator() || p.lookahead.IsEndOfFile() {
+	if p.lookahead.IsStatementSeparator() || p.lookahead.IsEndOfFile() || p.accept(token.RPAREN) {
 		return ast.NewThrowExpressionNode(
 			throwTok.Location(),
 			false,
@@ -5611,7 +5611,7 @@ func (p *Parser) breakExpression() ast.ExpressionNode {
 		}
 	}
 
-	if p.lookahead.IsStatementSeparator() || p.lookahead.IsEndOfFile() || p.accept(token.IF, token.UNLESS) {
+	if p.lookahead.IsStatementSeparator() || p.lookahead.IsEndOfFile() || p.accept(token.IF, token.UNLESS, token.RPAREN) {
 		return ast.NewBreakExpressionNode(
 			location,
 			label,
@@ -5643,7 +5643,7 @@ func (p *Parser) continueExpression() ast.ExpressionNode {
 		}
 	}
 
-	if p.lookahead.IsStatementSeparator() || p.lookahead.IsEndOfFile() || p.accept(token.IF, token.UNLESS) {
+	if p.lookahead.IsStatementSeparator() || p.lookahead.IsEndOfFile() || p.accept(token.IF, token.UNLESS, token.RPAREN) {
 		return ast.NewContinueExpressionNode(
 			location,
 			label,
@@ -5718,7 +5718,7 @@ func (p *Parser) awaitSyncExpression() *ast.AwaitExpressionNode {
 // returnExpression = "return" [expressionWithoutModifier]
 func (p *Parser) returnExpression() *ast.ReturnExpressionNode {
 	returnTok := p.advance()
-	if p.lookahead.IsStatementSeparator() || p.lookahead.IsEndOfFile() || p.accept(token.IF, token.UNLESS) {
+	if p.lookahead.IsStatementSeparator() || p.lookahead.IsEndOfFile() || p.accept(token.IF, token.UNLESS, token.RPAREN) {
 		return ast.NewReturnExpressionNode(
 			returnTok.Location(),
 			nil,
@@ -5736,7 +5736,7 @@ func (p *Parser) returnExpression() *ast.ReturnExpressionNode {
 // yieldExpression = "yield" ["*"] [expressionWithoutModifier]
 func (p *Parser) yieldExpression() *ast.YieldExpressionNode {
 	yieldTok := p.advance()
-	if p.lookahead.IsStatementSeparator() || p.lookahead.IsEndOfFile() || p.accept(token.IF, token.UNLESS) {
+	if p.lookahead.IsStatementSeparator() || p.lookahead.IsEndOfFile() || p.accept(token.IF, token.UNLESS, token.RPAREN) {
 		return ast.NewYieldExpressionNode(
 			yieldTok.Location(),
 			false,
